@@ -9,14 +9,19 @@ mod example_list_string;
 pub struct JSONArrayOfStrings;
 impl JSONArrayOfStrings {
     pub fn parse_as_list_string(json : String) -> Result<Vec<String>, String> {
-        let items = RawUnprocessedJSONArray::split_into_vector_of_strings(json).unwrap();
+        let boxed_items = RawUnprocessedJSONArray::split_into_vector_of_strings(json);
+        if boxed_items.is_err() {
+            let message = boxed_items.err().unwrap();
+            return Err(message);
+        }
+        let items = boxed_items.unwrap();
         let mut list: Vec<String> = vec![];
         for item in items {
             let boxed_parse = item.parse::<String>();
             let mut string: String = boxed_parse.unwrap().trim().to_string();
-            let starts_with_quotation_mark = string.chars().next().unwrap() == '"';
-            let ends_with_quotation_mark = string.chars().last().unwrap() == '"';
-            if starts_with_quotation_mark && ends_with_quotation_mark {
+            let starts_with_quotation_mark = string.starts_with('"');
+            let ends_with_quotation_mark = string.ends_with('"');
+            if starts_with_quotation_mark && ends_with_quotation_mark && string.len() >= 2 {
                 let number_of_characters = string.len() - 1;
                 string = string[1..number_of_characters].to_string();
             } else {
